@@ -67,7 +67,14 @@ func (c C16Case) Describe() string {
 var setters = []string{"SetPID", "SetRateLimit", "SetBacklogLimit", "SetEnabled", "SetImmutable", "SetFailure", "SetBacklogWaitTime"}
 
 func genC16(t *rapid.T) C16Case {
-	c := C16Case{Kind: rapid.SampledFrom([]string{"set", "set", "seq", "get", "wire", "wire"}).Draw(t, "kind")}
+	c := C16Case{Kind: rapid.SampledFrom([]string{"set", "set", "seq", "get", "wire", "wire", "many"}).Draw(t, "kind")}
+	if c.Kind == "many" {
+		// a long run of setters without waiting on one client: every one of them is a full request
+		c.Setter = rapid.SampledFrom(setters).Draw(t, "setter")
+		c.U32 = uint32(rapid.SampledFrom([]int{65, 66, 64, 63, 129, 100, 257, 3, 33, 1025}).Draw(t, "run"))
+		c.Bool = rapid.Bool().Draw(t, "bool")
+		return c
+	}
 	switch c.Kind {
 	case "seq":
 		c.Setter = rapid.SampledFrom(setters).Draw(t, "setter")
@@ -139,6 +146,32 @@ func callSetter(cl *libaudit.AuditClient, name string, u32 uint32, b bool, wm li
 
 func propC16(c C16Case) error {
 	switch c.Kind {
+	case "many":
+		k := simk.New(7)
+		k.KeepQueue = true
+		cl := &libaudit.AuditClient{Netlink: k}
+		for i := 0; i < int(c.U32); i++ {
+			name := setters[(i+len(c.Setter))%len(setters)]
+			if i%3 == 0 {
+				name = c.Setter
+			}
+			if name == "SetPID" || name == "SetImmutable" {
+				name = "SetRateLimit"
+			}
+			if err := callSetter(cl, name, uint32(i), c.Bool, libaudit.NoWait); err != nil {
+				return fmt.Errorf("setter %d (%s, NoWait) of a run of %d on one client: %v", i, name, c.U32, err)
+			}
+			if len(k.Sent) != i+1 {
+				return fmt.Errorf("setter %d (%s, NoWait) of a run of %d on one client: %d requests sent so far", i, name, c.U32, len(k.Sent))
+			}
+			s := k.Sent[i]
+			if uint32(s.Type) != uapi.A("AUDIT_SET") || s.Flags != syscall.NLM_F_REQUEST|syscall.NLM_F_ACK || len(s.Data) != sizeofStatus {
+				return fmt.Errorf("setter %d (%s, NoWait) of a run of %d on one client sent type %d flags %#x with %d bytes, want AUDIT_SET with REQUEST|ACK and a full-size status", i, name, c.U32, s.Type, s.Flags, len(s.Data))
+			}
+		}
+		hC16.Class("set-long-run-without-waiting")
+		hC16.NonTrivial(hx.FP(c.Describe()), c.Describe)
+		return nil
 	case "seq":
 		// "Every Set* command sends one AUDIT_SET request": also when an earlier request of the other wait mode
 		// is still unacknowledged on the same client, whatever its acknowledgement says
